@@ -78,6 +78,7 @@ bool wait_for(const std::function<bool()>& pred, sim::i64 timeout_ns, const char
 }
 
 void pretouch(); // scen_common.cc
+int run_conformance(bool verbose); // conformance.cc
 
 } // namespace scen
 
@@ -223,6 +224,10 @@ int main(int argc, char** argv)
     sim::start_watchdog(wd ? atoi(wd) : 20);
     scen::pretouch();
 
+    if (cmd == "conformance") {
+        int d = scen::run_conformance(argc >= 3);
+        return d == 0 ? 0 : 1;
+    }
     if (cmd == "gen" && argc >= 5) {
         Scenario* sc = find(argv[2]);
         Json plan = gen_plan(sc, strtoull(argv[3], nullptr, 10), atoi(argv[4]));
